@@ -1,6 +1,8 @@
 """C10, numeric part.  Cases (broadcast patterns, operations, parameters) come from the TLC dump of MVNOps.tla; every case is run
 on real MultivariateNormals with seeded, well-conditioned float64 covariances in every representation and compared with
-reference formulas computed here from a Cholesky factor of the expanded covariance."""
+reference formulas computed here from a Cholesky factor of the expanded covariance.
+Operation cases carry a scalar as <<num, den, spelling>> (spell()) and a history flag `warm` (the operand's Cholesky factor was
+needed before the operation); every result is compared on mean, covariance and log_prob (both paths), whatever the first two say."""
 import math
 import os
 
@@ -17,7 +19,7 @@ def write_ops(workdir, name, part, bcast, dims, variant="pinned"):
         f.write("---- MODULE %s ----\nEXTENDS MVNOps\nDimsDef == {%s}\n====\n" % (mod, ", ".join(map(str, dims))))
     cfg = os.path.join(workdir, mod + ".cfg")
     tlc.write_cfg(cfg, spec="Spec", constants={"Part": part, "Bcast": bool(bcast), "Dims": "<- DimsDef", "Variant": variant},
-                  invariants=["LogProbShapeOK", "OpsOK", "BcastDefOK"])
+                  invariants=["LogProbShapeOK", "OpsOK"])      # + ASSUME BcastDefOK, WarmNeutral, AlphabetOK (constant level, checked once)
     return os.path.join(workdir, mod + ".tla"), cfg
 
 
@@ -93,6 +95,40 @@ def construct(torch, mean, C, R, rep):
     else:
         cov = RootLinearOperator(R.clone())
     return MultivariateNormal(mean.clone(), cov)
+
+
+SPELLINGS = {0: "int", 1: "float", 2: "tensor0", 3: "bool", 4: "numpy", 5: "omitted"}
+SCALAR_OPS = ("add_scalar", "radd_scalar", "mul", "div", "rmul", "add_jitter")
+
+
+def spell(torch, param):
+    """The Python object for a scalar case <<num, den, spelling>> of MVNOps.tla, and its value as a float."""
+    num, den, sp = int(param[0]), int(param[1]), int(param[2])
+    c = num / den
+    if sp == 0:
+        if den != 1:
+            raise core.Machinery("int spelling of the non-integer %d/%d" % (num, den))
+        return num, c
+    if sp == 1:
+        return float(c), c
+    if sp == 2:
+        return torch.tensor(c, dtype=torch.float64), c
+    if sp == 3:
+        if den != 1 or num not in (0, 1):
+            raise core.Machinery("bool spelling of %d/%d" % (num, den))
+        return bool(num), c
+    if sp == 4:
+        import numpy
+        return numpy.float64(c), c
+    if sp == 5:
+        return None, c
+    raise core.Machinery("unknown scalar spelling %r" % (sp,))
+
+
+def show_param(op, param):
+    if op in SCALAR_OPS:
+        return "%s %s/%s" % (SPELLINGS[int(param[2])], param[0], param[1]) if param[1] != 1 else "%s %s" % (SPELLINGS[int(param[2])], param[0])
+    return str(param)
 
 
 def relation(mb, cb):
@@ -193,6 +229,16 @@ def _numeric_worker(item):
             g1, w1 = core.close(v[2][0], M - 2 * dg.sqrt(), 1e-7, 1e-9)
             g2, w2 = core.close(v[2][1], M + 2 * dg.sqrt(), 1e-7, 1e-9)
             emit("confidence_region", rel, g1 and g2, "confidence_region is not mean -/+ 2 stddev: %s %s" % (w1, w2), [])
+            # reading them again (and after confidence_region, which works on stddev in place) gives the same answers
+            ok, v2 = core.guarded(lambda: (d.confidence_region(), d.variance, d.stddev, d.mean, d.covariance_matrix))
+            if not ok:
+                emit("variance", rel + "/reread/raises", False, v2, [])
+            else:
+                checks = [core.close(v2[0][0], M - 2 * dg.sqrt(), 1e-7, 1e-9), core.close(v2[0][1], M + 2 * dg.sqrt(), 1e-7, 1e-9), core.close(v2[1], dg, 1e-7, 1e-9),
+                          core.close(v2[2], dg.sqrt(), 1e-7, 1e-9), core.close(torch.broadcast_to(v2[3], M.shape), M, 1e-7, 1e-9),
+                          core.close(torch.broadcast_to(v2[4], S.shape), S, 1e-7, 1e-9)]
+                emit("variance", rel + "/reread", all(g for g, _ in checks),
+                     "second confidence_region / variance / stddev / mean / covariance_matrix differ from the first: " + " ".join(w for g, w in checks if not g), [])
 
     # ---- rsample(base_samples = unit vectors): mean + R e with R R^T = covariance
     if want("rsample", []):
@@ -212,6 +258,11 @@ def _numeric_worker(item):
                 Rr = (smp - M).movedim(0, -1)              # (..., n, kk): column j = response to base sample e_j
                 good, why = core.close(Rr @ Rr.transpose(-1, -2), S, 1e-7, 1e-9)
                 emit("rsample", rel, good, "rsample(base_samples=e) - mean = R e with R R^T != covariance: " + why, [])
+            for ss in ((), (1,), (3,), (2, 1)):
+                ok, smp = core.guarded(lambda: (d.rsample(torch.Size(ss)), d.get_base_samples(torch.Size(ss)) if ss else d.get_base_samples()))
+                good = ok and tuple(smp[0].shape) == ss + db + (n,) and bool(torch.isfinite(smp[0]).all()) and tuple(smp[1].shape) == ss + db + (kk,)
+                emit("rsample", rel + "/sample-shape", good, "rsample(Size(%s)) / get_base_samples(Size(%s)) -> %s, expected shapes %s / %s" % (
+                    list(ss), list(ss), smp if not ok else (list(smp[0].shape), list(smp[1].shape)), list(ss + db + (n,)), list(ss + db + (kk,))), [list(ss)])
             ok, bs = core.guarded(lambda: d.get_base_samples(torch.Size([3])))
             good = ok and tuple(bs.shape) == (3,) + db + (kk,)
             emit("get_base_samples", rel, good, "get_base_samples(Size([3])) -> %s, expected shape %s" % (bs if not ok else list(bs.shape), [3] + list(db) + [kk]), [])
@@ -229,26 +280,26 @@ def _numeric_worker(item):
                     emit("rsample", rel + "/own-base-samples", False, "rsample(Size([3]), base_samples=get_base_samples(Size([3]))) -> %s" % (s2 if not ok else list(s2.shape)), [])
 
     # ---- KL
-    for qname, (qmb, qcb, qrep) in (("self", (mb, cb, rep)), ("same-batch-dense", (db, db, "dense")), ("unbatched-lazy", ((), (), "lazy")), ("batch2-diag", ((2,), (2,), "diag"))):
+    for qname, (qmb, qcb, qrep) in (("self", (mb, cb, rep)), ("same-object", (mb, cb, rep)), ("same-batch-dense", (db, db, "dense")), ("unbatched-lazy", ((), (), "lazy")), ("batch2-diag", ((2,), (2,), "diag"))):
         if not want("kl", [qname]):
             continue
         try:
             ob = tuple(torch.broadcast_shapes(db, tuple(torch.broadcast_shapes(qmb, qcb))))
         except RuntimeError:
             continue
-        if qname == "self":
+        if qname in ("self", "same-object"):
             qm, qC, qR = mean, C, R
         else:
             qm, qC, qR = make_params(torch, n, qmb, qcb, qrep, seed + 101)
         p = fresh()
-        q = construct(torch, qm, qC, qR, qrep)
+        q = p if qname == "same-object" else construct(torch, qm, qC, qR, qrep)
         ok, kl = core.guarded(lambda: torch.distributions.kl_divergence(p, q))
         ref = ref_kl(torch, M.expand(*ob, n), S.expand(*ob, n, n), qm.expand(*ob, n), qC.expand(*ob, n, n))
         cell = "%s/%s" % (qname, rel)
         if not ok:
             emit("kl", cell + "/raises", False, "kl_divergence(p, q=%s) raised %s" % (qname, kl), [qname])
             continue
-        if qname == "self":
+        if qname in ("self", "same-object"):
             good, why = core.close(kl, torch.zeros(ob, dtype=torch.float64), 0, 1e-9)
             emit("kl", cell, good, "KL(p || p) = %s, expected 0: %s" % (kl.reshape(-1)[:3].tolist(), why), [qname])
         else:
@@ -266,25 +317,47 @@ def _numeric_worker(item):
 
     # ---- arithmetic / reshaping operations: cases of MVNOps.tla
     for oc in item["ops"]:
-        op, param = oc["op"], oc["param"]
-        key = [param]
-        if not want(op, key):
+        op, param, warm = oc["op"], oc["param"], bool(oc.get("warm"))
+        key = [param, warm]
+        if only is not None and (only[0] != "__op__" or only[1] != oc):
             continue
+        cur[0] = ["__op__", oc]
         d = fresh()
         experr = oc["experr"]
+        optional, degenerate = bool(oc.get("optional")), bool(oc.get("degenerate"))
         eb = tuple(oc["expect"]) if not experr else None
-        if op in ("add_scalar", "mul", "div", "add_jitter"):
-            c = float(param[0]) / float(param[1])
-            if param[1] == 1 and op in ("mul", "div") and param[0] == 1:
-                c = 1
+        ps = show_param(op, param)
+        hist = "after a Cholesky-path log_prob, " if warm else ""
+        cell = rel + ("/warm" if warm else "")
+        nt = bool(db) or op in ("expand", "unsqueeze", "add_mvn")
+        am = ac = 1e-9          # absolute tolerances of mean / covariance: scaled with the result for the 0-adjacent scalars
+        if warm:
+            # history: the Cholesky factor of the operand was needed once (a lazy distribution caches it from then on)
+            gen = torch.Generator().manual_seed(seed + 55)
+            Y0 = torch.randn(*db, n, generator=gen, dtype=torch.float64)
+            with gpytorch.settings.fast_computations(log_prob=False):
+                ok, lp0 = core.guarded(lambda: d.log_prob(Y0))
+            if not ok:
+                emit(op, cell + "/raises", False, "log_prob on the Cholesky path (history of the case) raised %s" % lp0, key, nontrivial=nt)
+                continue
+        if op in SCALAR_OPS:
+            k, c = spell(torch, param)
             if op == "add_scalar":
-                fn, rm, rS = (lambda: d + c), M + c, S
+                fn, rm, rS = (lambda: d + k), M + c, S
+            elif op == "radd_scalar":
+                fn, rm, rS = (lambda: k + d), M + c, S
             elif op == "mul":
-                fn, rm, rS = (lambda: d * c), M * c, S * c * c
+                fn, rm, rS = (lambda: d * k), M * c, S * c * c
+            elif op == "rmul":
+                fn, rm, rS = (lambda: k * d), M * c, S * c * c
             elif op == "div":
-                fn, rm, rS = (lambda: d / c), M / c, S / (c * c)
+                fn, rm, rS = (lambda: d / k), M / c, S / (c * c)
             else:
-                fn, rm, rS = (lambda: d.add_jitter(c)), M, S + c * torch.eye(n, dtype=torch.float64)
+                fn = (lambda: d.add_jitter()) if k is None else (lambda: d.add_jitter(k))
+                rm, rS = M, S + c * torch.eye(n, dtype=torch.float64)
+            if op in ("mul", "rmul", "div") and c != 0:
+                sc = min(1.0, abs(c) if op != "div" else 1.0 / abs(c))
+                am, ac = 1e-9 * sc, 1e-9 * sc * sc
         elif op == "expand":
             B = tuple(param)
             fn = lambda: d.expand(torch.Size(B))
@@ -306,38 +379,66 @@ def _numeric_worker(item):
         else:
             raise core.Machinery("unknown operation %r in the TLC dump" % (op,))
         ok, r = core.guarded(fn)
-        cell = rel
-        nt = bool(db) or op in ("expand", "unsqueeze", "add_mvn")
         if experr:
-            emit(op, cell + ("" if not ok else "/accepts-invalid"), not ok, "%s(%s) is invalid for batch shape %s but returned %s" % (op, param, list(db), type(r).__name__), key, nontrivial=nt)
+            emit(op, cell + ("" if not ok else "/accepts-invalid"), not ok, "%s%s(%s) is invalid for batch shape %s but returned %s" % (hist, op, ps, list(db), type(r).__name__), key, nontrivial=nt)
             continue
         if not ok:
-            emit(op, cell + "/raises", False, "%s(%s) raised %s" % (op, param, r), key, nontrivial=nt)
+            if optional:
+                # a spelling / operand order the library may refuse: refusing is fine, answering wrongly is not
+                emit(op, cell + "/rejected", True, "%s(%s) rejected: %s" % (op, ps, r), key, nontrivial=False)
+            else:
+                emit(op, cell + "/raises", False, "%s%s(%s) raised %s" % (hist, op, ps, r), key, nontrivial=nt)
             continue
         ok2, view = core.guarded(lambda: dist_view(torch, r))
         if not ok2:
-            emit(op, cell + "/raises", False, "result of %s(%s) cannot be evaluated: %s" % (op, param, view), key, nontrivial=nt)
+            emit(op, cell + "/raises", False, "result of %s%s(%s) cannot be evaluated: %s" % (hist, op, ps, view), key, nontrivial=nt)
             continue
         bs, rmean, rcov = view
         if bs != eb:
-            emit(op, cell + "/batch-shape", False, "%s(%s): batch_shape %s, expected %s" % (op, param, list(bs), list(eb)), key, nontrivial=nt)
+            emit(op, cell + "/batch-shape", False, "%s%s(%s): batch_shape %s, expected %s" % (hist, op, ps, list(bs), list(eb)), key, nontrivial=nt)
             continue
-        g1, w1 = core.close(rmean, rm, 1e-7, 1e-9)
-        g2, w2 = core.close(rcov, rS, 1e-7, 1e-9)
+        # mean AND covariance AND (below) log_prob of every result, whatever the other two say: a short-cut that returns the
+        # operand, a reused factor, a stale cache each show in a different one
+        g1, w1 = core.close(rmean, rm, 1e-7, am)
+        g2, w2 = core.close(rcov, rS, 1e-7, ac)
         emit(op, cell + ("" if g1 and g2 else ("/mean" if not g1 else "/covariance")), g1 and g2,
-             "%s(%s): mean %s covariance %s" % (op, param, w1 or "ok", w2 or "ok"), key, nontrivial=nt, sample=(op == "unsqueeze" and len(db) == 2 and param == 1))
-        if g1 and g2:
-            # the resulting distribution is still the distribution it claims to be: log_prob on both paths (a derived object may
-            # carry a reused Cholesky factor that mean / covariance do not show)
-            gen = torch.Generator().manual_seed(seed + 77)
-            Y = torch.randn(*bs, n, generator=gen, dtype=torch.float64)
-            ref = ref_logpdf(torch, Y, rm, rS)
-            for fast in (True, False):
-                with gpytorch.settings.fast_computations(log_prob=fast):
-                    ok, lp = core.guarded(lambda: r.log_prob(Y))
-                good, why = (False, lp) if not ok else core.close(lp, ref, 1e-7, 1e-9)
-                emit(op, cell + "/then-log_prob-" + ("fast" if fast else "cholesky"), good, "%s(%s).log_prob: %s" % (op, param, why), key + [fast], nontrivial=nt)
+             "%s%s(%s): mean %s covariance %s" % (hist, op, ps, w1 or "ok", w2 or "ok"), key, nontrivial=nt, sample=(op == "unsqueeze" and len(db) == 2 and param == 1 and not warm))
+        if degenerate:
+            continue          # covariance 0: no density to compare
+        dgr = torch.diagonal(rS, dim1=-1, dim2=-2)
+        if float(dgr.min()) > 1e-4:        # (settings.min_variance clamps below 1e-6: the 0-adjacent products are not compared)
+            okv, var = core.guarded(lambda: torch.broadcast_to(r.variance, bs + (n,)))
+            g3, w3 = (False, var) if not okv else core.close(var, dgr, 1e-7, 1e-9)
+            if not g3:
+                emit(op, cell + "/variance", False, "%s%s(%s).variance: %s" % (hist, op, ps, w3), key, nontrivial=nt)
+        # the resulting distribution is the distribution it claims to be: log_prob on both paths at values drawn around the
+        # EXPECTED distribution (a derived object may carry a reused Cholesky factor that mean / covariance do not show)
+        gen = torch.Generator().manual_seed(seed + 77)
+        try:
+            Lr = torch.linalg.cholesky(rS)
+        except Exception as e:
+            raise core.Machinery("expected covariance of %s(%s) is not positive definite: %s" % (op, ps, rS))
+        Y = rm + (Lr @ (1.2 * torch.randn(*bs, n, 1, generator=gen, dtype=torch.float64))).squeeze(-1)
+        ref = ref_logpdf(torch, Y, rm, rS)
+        for fast in (True, False):
+            with gpytorch.settings.fast_computations(log_prob=fast):
+                ok, lp = core.guarded(lambda: r.log_prob(Y))
+            good, why = (False, lp) if not ok else core.close(lp, ref, 1e-7, 1e-9)
+            emit(op, cell + "/then-log_prob-" + ("fast" if fast else "cholesky"), good, "%s%s(%s).log_prob: %s" % (hist, op, ps, why), key + [fast], nontrivial=nt)
     return out
+
+
+def check_alphabet(ck, configs):
+    """Vacuity guard on the replay side: the cases read from the dump really contain the special scalars in every spelling
+    (the spec states the same as invariant AlphabetOK) and both histories."""
+    for cfgk, e in configs.items():
+        have = set((o["op"], tuple(o["param"]), o["warm"]) for o in e["ops"] if o["op"] in SCALAR_OPS)
+        warms = (False, True) if cfgk[2] else (False,)          # a dense distribution always has its factor: no history to tell apart
+        need = [(op, (v, 1, sp), w) for op in ("mul", "div") for v in (1, -1) for sp in (0, 1, 2, 4) for w in warms]
+        need += [(op, (0, 1, sp), w) for op in ("add_scalar", "radd_scalar", "add_jitter") for sp in (0, 1) for w in warms]
+        missing = [x for x in need if x not in have]
+        if e["ops"] and missing:
+            ck.vacuous("MVNOps cases of configuration %s lack the special scalar cases %s" % (cfgk, missing[:4]))
 
 
 def run(ck, meta, results):
@@ -373,7 +474,9 @@ def run(ck, meta, results):
                     p = [list(p[0]), list(p[1])]
                 elif isinstance(p, tuple):
                     p = list(p)
-                e["ops"].append(dict(op=c["op"], param=p, experr=bool(c["experr"]), expect=list(c["expect"])))
+                e["ops"].append(dict(op=c["op"], param=p, warm=bool(c["warm"]), experr=bool(c["experr"]), expect=list(c["expect"]),
+                                     optional=bool(c["optional"]), degenerate=bool(c["degenerate"])))
+    check_alphabet(ck, configs)
     items = []
     for (mb, cb, lazy), e in sorted(configs.items()):
         for rep in (("lazy", "diag", "root") if lazy else ("dense",)):
@@ -395,27 +498,8 @@ def replay(rep):
     op = case["only"][0]
     if op == "log_prob":
         item["vbs"] = [case["only"][1]]
-    elif op not in ("moments", "rsample", "kl", "kl_delta"):
-        # the operation case: expectation recomputed from the semantics for the replay
-        core.setup_torch()
-        import torch
-        db = tuple(torch.broadcast_shapes(tuple(case["mb"]), tuple(case["cb"])))
-        param = case["only"][1]
-        experr, expect = False, list(db)
-        if op == "expand":
-            try:
-                experr = tuple(torch.broadcast_shapes(db, tuple(param))) != tuple(param) or len(param) < len(db)
-            except RuntimeError:
-                experr = True
-            expect = list(param)
-        elif op == "unsqueeze":
-            experr = param > len(db) or param < -len(db) - 1
-            if not experr:
-                k = param if param >= 0 else len(db) + param + 1
-                expect = list(db[:k]) + [1] + list(db[k:])
-        elif op == "add_mvn":
-            expect = list(torch.broadcast_shapes(db, tuple(param[0]), tuple(param[1])))
-        item["ops"] = [dict(op=op, param=param, experr=experr, expect=expect)]
+    elif op == "__op__":
+        item["ops"] = [case["only"][1]]        # the operation case as generated by TLC (inputs and declarative expectation)
     res = _numeric_worker(item)
     rc = 0
     for r in res:
